@@ -87,9 +87,32 @@ def roundtrip(bits, integ, ivname, label, inner, expressible):
     want = R.without_unknown(m)
     n = R.icv_len(integ)
     datagrams = [('reference', R.encode(m, keys))]
+    # what another implementation may send: more padding than the minimum, padding that is not zeros (RFC 7296 3.14: the
+    # recipient MUST accept any length that results in proper alignment)
+    for extra, fill in ((1, 0), (1, 0xA5), (7, 0x11), (15, 0xFF)):
+        if (-(len(chain) + 1)) % 16 + 16 * extra <= 255:
+            mm = dict(m, sk=dict(m['sk'], pad_extra=extra, pad_fill=fill))
+            datagrams.append(('reference+%d-blocks-of-%02x-padding' % (extra, fill), R.encode(mm, keys)))
     if expressible:
         try:
             datagrams.insert(0, ('to_bytes', bytes(K.build_message(m, keys).to_bytes())))
+        except Exception as ex:   # noqa
+            out.append(('build', 'raises:' + exname(ex), '%s: %s' % (exname(ex), ex)))
+    if expressible:
+        # a message built without an explicit IV (what IkeSa does): the library picks one, keeps it, and every serialisation
+        # of the same object gives the same octets (a retransmission is a second serialisation)
+        try:
+            lm = K.build_message(dict(m, sk=dict(m['sk'], iv=None)), keys)
+            first, second = bytes(lm.to_bytes()), bytes(lm.to_bytes())
+            if first != second:
+                out.append(('frame', 'second-serialisation-differs', 'two to_bytes() calls on one message differ (%d octets, first '
+                            'difference at %d)' % (len(first), next((i for i, (x, y) in enumerate(zip(first, second)) if x != y), -1))))
+            o = R.sk_open(first, keys)
+            if lm.iv is None or bytes(lm.iv) != o['iv']:
+                out.append(('frame', 'iv-not-kept', 'IV on the wire %s, Message.iv %r' % (o['iv'].hex(), lm.iv)))
+            datagrams.append(('to_bytes-own-iv', first))
+        except R.DecodeError as ex:
+            out.append(('frame', 'not-header+SK', '%s' % ex))
         except Exception as ex:   # noqa
             out.append(('build', 'raises:' + exname(ex), '%s: %s' % (exname(ex), ex)))
     for who, data in datagrams:
@@ -128,6 +151,8 @@ def roundtrip(bits, integ, ivname, label, inner, expressible):
         except Exception as ex:   # noqa
             out.append(('parse-' + who, 'raises:' + exname(ex), '%s: %s on %s' % (exname(ex), ex, data.hex())))
             continue
+        if who == 'to_bytes-own-iv' and got.get('sk') and want.get('sk'):
+            got = dict(got, sk=dict(got['sk'], iv=want['sk']['iv']))        # the IV is the library's own choice here
         if got != want:
             out.append(('parse-' + who, 'payloads-differ', 'parsed %r\nexpected %r' % (got, want)))
     return out
